@@ -287,6 +287,15 @@ class Inliner:
                     for st in other.tree.body:
                         if isinstance(st, ast.FunctionDef) and st.name == imp[1]:
                             return self._foreign(st, other), False
+            elif f.id not in self.exclude and self.sf is not None:
+                # a small public helper of the package imported by name (`decode_cstring(data)`): at most three statements, no decorators
+                imp = self.sf.imports.get(f.id)
+                if imp and imp[1] and imp[0] in self.repo.by_mod and imp[0].startswith("rv."):
+                    other = self.repo.by_mod[imp[0]]
+                    for st in other.tree.body:
+                        if isinstance(st, ast.FunctionDef) and st.name == imp[1] and not st.decorator_list and len(_body(st)) <= 3 \
+                                and not _is_generator(st) and not any(isinstance(n, (ast.With, ast.Try, ast.For, ast.While, ast.Global)) for n in ast.walk(st)):
+                            return self._foreign(st, other), False
             return None
         if isinstance(f, ast.Attribute) and norm(f.value) in self.receivers:
             # a method of another object whose class is known to the caller of the inliner (the module in a project's loop)
